@@ -245,9 +245,12 @@ func (fg *FuncGen) trIdent(name string, env *SpecEnv, hint types.Type) Val {
 		if len(env.results) == 1 {
 			return env.results[0]
 		}
-		fg.specFail(env, "`result` needs exactly one result (use result0, result1...)")
+		// inside a loop invariant a local variable may itself be called `result`
+		if env.loop == nil || len(env.results) > 0 {
+			fg.specFail(env, "`result` needs exactly one result (use result0, result1...)")
+		}
 	}
-	if strings.HasPrefix(name, "result") {
+	if strings.HasPrefix(name, "result") && name != "result" {
 		if i, err := strconv.Atoi(name[6:]); err == nil {
 			if i < len(env.results) {
 				return env.results[i]
